@@ -168,8 +168,7 @@ func (g *Generator) generateStructSchemaWithRefs(t reflect.Type) *openapi3.Schem
 	var required []string
 	requiredSet := make(map[string]bool)
 
-	for i := 0; i < t.NumField(); i++ {
-		field := t.Field(i)
+	for _, field := range jsonFields(t) {
 		if !field.IsExported() {
 			continue
 		}
@@ -438,8 +437,7 @@ func convertStructToSchemaWithDepthLimit(t reflect.Type, visited map[reflect.Typ
 	var required []string
 	requiredSet := make(map[string]bool)
 
-	for i := 0; i < t.NumField(); i++ {
-		field := t.Field(i)
+	for _, field := range jsonFields(t) {
 
 		if !field.IsExported() {
 			continue
@@ -556,8 +554,7 @@ func convertStructToSchemaWithVisited(t reflect.Type, visited map[reflect.Type]*
 	var required []string
 	requiredSet := make(map[string]bool) // Track required fields to avoid duplicates
 
-	for i := 0; i < t.NumField(); i++ {
-		field := t.Field(i)
+	for _, field := range jsonFields(t) {
 
 		// Skip unexported fields
 		if !field.IsExported() {
@@ -627,6 +624,54 @@ func convertMapToSchemaWithVisited(t reflect.Type, visited map[reflect.Type]*ope
 	}
 
 	return schema
+}
+
+// jsonFields lists the fields of struct type t the way encoding/json sees
+// them: the fields of an embedded struct that has no JSON name of its own are
+// promoted to the embedding struct, level by level, and a field declared at a
+// shallower level hides a promoted one of the same JSON name.
+func jsonFields(t reflect.Type) []reflect.StructField {
+	var fields []reflect.StructField
+	taken := make(map[string]bool)
+	visited := map[reflect.Type]bool{t: true}
+	for level := []reflect.Type{t}; len(level) > 0; {
+		var next []reflect.Type
+		var names []string
+		for _, st := range level {
+			for i := 0; i < st.NumField(); i++ {
+				field := st.Field(i)
+				if field.Anonymous {
+					ft := field.Type
+					if ft.Kind() == reflect.Ptr {
+						ft = ft.Elem()
+					}
+					tag := field.Tag.Get("json")
+					if ft.Kind() == reflect.Struct && tag != "-" && strings.Split(tag, ",")[0] == "" &&
+						wellKnownTypeSchema(ft) == nil {
+						if !visited[ft] {
+							visited[ft] = true
+							next = append(next, ft)
+						}
+						continue
+					}
+				}
+				if !field.IsExported() {
+					continue
+				}
+				name := getJSONFieldName(field)
+				if name == "" || name == "-" || taken[name] {
+					continue
+				}
+				names = append(names, name)
+				fields = append(fields, field)
+			}
+		}
+		for _, name := range names {
+			taken[name] = true
+		}
+		level = next
+	}
+	return fields
 }
 
 // getJSONFieldName extracts the JSON field name from struct field
@@ -943,8 +988,7 @@ func (g *NestedRefGenerator) generateStructSchema(t reflect.Type) *openapi3.Sche
 	schema := openapi3.NewObjectSchema()
 	schema.Properties = make(openapi3.Schemas)
 
-	for i := 0; i < t.NumField(); i++ {
-		field := t.Field(i)
+	for _, field := range jsonFields(t) {
 
 		// Skip unexported fields
 		if !field.IsExported() {
